@@ -56,7 +56,13 @@ RULE = ('Pool per worker: the repository sample of every self-describing '
         'crossing midnight / year / century, any grid) under suffix, neutral '
         'and dotted names.  Where the last extension equals a registered '
         'reader name, auto-detection must use that reader (class equality '
-        'with format=<name>).  Distinct by sha1 of the history.')
+        'with format=<name>).  Copies of the samples under the extension of '
+        'another registered reader that cannot identify files (csv, landuse, '
+        'wind, temperature, jtable, geos) must be detected by content.  '
+        '"regdup" steps define classes named like built-in readers (uamiv, '
+        'ffi1001) that claim every file: afterwards auto-detection and '
+        'format=<name> must still agree in that registry state.  Distinct by '
+        'sha1 of the history.')
 ASSUMPTIONS = ['the global reader registry is restored from its import-time '
                'snapshot at the top of every case (R6)',
                'sample files of the repository stand for their formats; '
@@ -93,6 +99,7 @@ def icartt_delimited(blob, sep):
         out.append(ln)
     assert nv == len(lines[10].split())
     return b'\n'.join(out)
+FOREIGN_EXT = ['csv', 'landuse', 'wind', 'temperature', 'jtable', 'geos']
 MANY_N = 80          # opens of one file in a 'many:' step
 MANY_HEADROOM = 64   # descriptors left to the process during that step (one
 #                      auto-detecting open transiently holds a few dozen)
@@ -148,6 +155,13 @@ def build_fixed_pool(d):
         p_ = os.path.join(d, 'run.20020603.d01.%s' % k)
         shutil.copy(sp[k], p_)
         pool['d:' + k] = dict(path=p_, fmt=k, kind=k, suffix=True)
+    # self-describing content under the extension of ANOTHER registered
+    # reader that cannot identify files itself (it inherits the declining
+    # isMine): detection must fall through to the content
+    for k, ext in zip(SAMPLES, FOREIGN_EXT):
+        p_ = os.path.join(d, 'foreign_%s.%s' % (k, ext))
+        shutil.copy(sp[k], p_)
+        pool['f:' + k] = dict(path=p_, fmt=k, kind=k, suffix=False)
     for k, base, fmt, line1 in VARIANTS:
         with open(sp[base], 'rb') as fi:
             blob = fi.read()
@@ -241,6 +255,29 @@ def dummy_readers():
         _DUMMY['a'] = c15reca
         _DUMMY['b'] = c15recb
     return _DUMMY['a'], _DUMMY['b']
+
+
+def define_impostors():
+    """registerreader(<name of a built-in reader>, impostor) in mid-session:
+    the impostor is a plain class (not a PseudoNetCDFFile subclass, so it is
+    not auto-registered under a module-qualified name) that claims every
+    file.  The registry documents a refusal (returns False) for a taken name;
+    whatever it does, auto-detection and format=<name> must keep agreeing."""
+    from PseudoNetCDF import PseudoNetCDFFile
+    from PseudoNetCDF._getreader import registerreader
+
+    class impostor(object):
+        @classmethod
+        def isMine(cls, path, *args, **kwds):
+            return True
+
+        def __new__(cls, path, *args, **kwds):
+            f = PseudoNetCDFFile()
+            f.createDimension('impostor', 1)
+            v = f.createVariable('impostor', 'i', ('impostor',))
+            v[:] = 7
+            return f
+    return [registerreader(name, impostor) for name in ('uamiv', 'ffi1001')]
 
 
 def register_dummies():
@@ -338,6 +375,8 @@ def _main_ref(d):
         pool['n:' + k] = os.path.join(d, 'neutral_%s.dat' % k)
     for k in SAMPLES:
         pool['d:' + k] = os.path.join(d, 'run.20020603.d01.%s' % k)
+    for k, ext in zip(SAMPLES, FOREIGN_EXT):
+        pool['f:' + k] = os.path.join(d, 'foreign_%s.%s' % (k, ext))
     for k, base, fmt, line1 in VARIANTS:
         pool['s:' + k] = os.path.join(d, 'sfx_%s.%s' % (k, fmt))
         pool['n:' + k] = os.path.join(d, 'neutral_%s.dat' % k)
@@ -364,7 +403,8 @@ POOLKEYS = ['s:' + k for k in SAMPLES] + ['n:' + k for k in SAMPLES] + \
     ['s:nc1', 'n:nc1', 's:nc2', 'n:nc2', 's:io', 'n:io'] + \
     ['s:' + k for k, _ in BROKEN] + ['n:' + k for k, _ in BROKEN][:2] + \
     ['s:' + v[0] for v in VARIANTS] + ['n:' + v[0] for v in VARIANTS] + \
-    ['d:' + k for k in SAMPLES] + ['s:cx', 's:cx', 'n:cx', 'n:cx', 'd:cx']
+    ['d:' + k for k in SAMPLES] + ['s:cx', 's:cx', 'n:cx', 'n:cx', 'd:cx'] + \
+    ['f:' + k for k in SAMPLES]
 MANYKEYS = ['s:nc1', 'n:nc1', 's:io', 'n:io', 's:nc2', 'n:nc2', 's:uamiv',
             'n:humidity', 's:ffi1001', 'n:bpch', 'n:lateral_boundary',
             's:trunc_uamiv', 'n:trunc_humidity']
@@ -393,12 +433,19 @@ def cases(draw, tier='quick'):
             h = 'w=' + draw(st.sampled_from(REWRITE_KINDS))
         elif c == 4 and draw(st.booleans()):
             h = draw(st.sampled_from(['le:uamiv', 'le:uamiv', 'reg', 'reg',
-                                      's:c15rec', 's:uamiv', 'n:uamiv']))
+                                      's:c15rec', 's:uamiv', 'n:uamiv',
+                                      'regdup', 'regdup']))
         else:
             h = draw(st.sampled_from(POOLKEYS))
         if draw(st.integers(0, 39)) == 0:
             # "no matter how often": the same file opened MANY_N times
             hist.append('many:' + draw(st.sampled_from(MANYKEYS)))
+        if h == 'regdup':
+            # an impostor class under the NAME of a built-in reader is defined
+            # in mid-session; afterwards a file that reader owns is probed
+            hist.append('regdup')
+            h = draw(st.sampled_from(['n:uamiv', 'n:ffi1001', 'f:uamiv',
+                                      'n:cx', 's:ffi1001', 'f:ffi1001']))
         if h == 'reg':
             # registration in mid-session, followed (now or later) by a probe
             # of the file whose suffix names the newly registered reader
@@ -528,6 +575,44 @@ def compare(ref, got):
     return None
 
 
+def judge_auto_vs_explicit(r, key, e, auto, expl, tag=''):
+    """clause 2 for one file: the auto-detected open and the open with the
+    format named must present the same dimensions and variable data (and the
+    same reader where the last extension names it)"""
+    if auto[0] != 'ok' or expl[0] != 'ok':
+        if auto[0] != expl[0]:
+            r.fail('explicit-outcome' + tag, '%s: auto-detect %r, '
+                   'format=%s %r' % (key, auto[:2] if auto[0] != 'ok'
+                                     else 'ok', e['fmt'],
+                                     expl[:2] if expl[0] != 'ok'
+                                     else 'ok'), klass=e['kind'])
+        return
+    a, b = auto[1], expl[1]
+    if e['suffix'] and e['path'].endswith('.' + e['fmt']) and \
+            a['cls'] != b['cls']:
+        # the extension names a registered reader: auto-detection
+        # must pick that reader, not merely one that reads the bytes
+        r.fail('explicit-reader' + tag, '%s: the extension names %s, '
+               'auto-detect used %s, format=%s uses %s' % (
+                   key, e['fmt'], a['cls'], e['fmt'], b['cls']),
+               klass=e['kind'])
+    if a['dims'] != b['dims']:
+        r.fail('explicit-dims' + tag, '%s: auto (%s) dimensions %r, '
+               'format=%s (%s) %r' % (key, a['cls'], a['dims'],
+                                      e['fmt'], b['cls'], b['dims']),
+               klass=e['kind'])
+    elif sorted(a['vars'].values()) != sorted(b['vars'].values()):
+        # variable *data* must agree; names may differ where two
+        # formats share one binary layout (humidity / vertical
+        # diffusivity files are indistinguishable by content)
+        ks = sorted(set(a['vars']) ^ set(b['vars'])) or \
+            [k for k in a['vars'] if a['vars'][k] != b['vars'][k]]
+        r.fail('explicit-data' + tag, '%s: auto (%s) vs format=%s (%s): '
+               'variable data differ %r' % (key, a['cls'], e['fmt'],
+                                            b['cls'], ks[:6]),
+               klass=e['kind'])
+
+
 def check_case(case):
     r = Result()
     pool = dict(fixed_pool())
@@ -545,9 +630,16 @@ def check_case(case):
         workpath = os.path.join(cdir, 'work.dat')
         touched = []
         registered = [False]
+        dup = [False]
         for i, step in enumerate(case['history']):
             aspath = step.endswith('|P')
             key = step[:-2] if aspath else step
+            if key == 'regdup':
+                define_impostors()
+                dup[0] = True
+                r.label('taken-name-defined-mid-session')
+                nt = True
+                continue
             if key == 'reg':
                 # two overlapping readers are registered in mid-session
                 register_dummies()
@@ -591,6 +683,14 @@ def check_case(case):
                 r.label('explicit-endian-open')
                 nt = True
             got = probe(e['path'], aspath=aspath, **(e.get('kw') or {}))
+            if dup[0] and e['fmt'] is not None and not e.get('kw'):
+                # in the registry state after the impostor definition
+                expl = probe(e['path'], format=e['fmt'])
+                nfail = len(r.failures)
+                judge_auto_vs_explicit(r, key, e, got, expl,
+                                       tag='-after-taken-name')
+                if len(r.failures) > nfail:
+                    break
             d = compare(e['ref'], got)
             if d is not None:
                 prior = [x for x in case['history'][:i]]
@@ -623,38 +723,7 @@ def check_case(case):
             auto = e['ref']
             libstate.reset()
             expl = probe(e['path'], format=e['fmt'])
-            if auto[0] != 'ok' or expl[0] != 'ok':
-                if auto[0] != expl[0]:
-                    r.fail('explicit-outcome', '%s: auto-detect %r, '
-                           'format=%s %r' % (key, auto[:2] if auto[0] != 'ok'
-                                             else 'ok', e['fmt'],
-                                             expl[:2] if expl[0] != 'ok'
-                                             else 'ok'), klass=e['kind'])
-                continue
-            a, b = auto[1], expl[1]
-            if e['suffix'] and e['path'].endswith('.' + e['fmt']) and \
-                    a['cls'] != b['cls']:
-                # the extension names a registered reader: auto-detection
-                # must pick that reader, not merely one that reads the bytes
-                r.fail('explicit-reader', '%s: the extension names %s, '
-                       'auto-detect used %s, format=%s uses %s' % (
-                           key, e['fmt'], a['cls'], e['fmt'], b['cls']),
-                       klass=e['kind'])
-            if a['dims'] != b['dims']:
-                r.fail('explicit-dims', '%s: auto (%s) dimensions %r, '
-                       'format=%s (%s) %r' % (key, a['cls'], a['dims'],
-                                              e['fmt'], b['cls'], b['dims']),
-                       klass=e['kind'])
-            elif sorted(a['vars'].values()) != sorted(b['vars'].values()):
-                # variable *data* must agree; names may differ where two
-                # formats share one binary layout (humidity / vertical
-                # diffusivity files are indistinguishable by content)
-                ks = sorted(set(a['vars']) ^ set(b['vars'])) or \
-                    [k for k in a['vars'] if a['vars'][k] != b['vars'][k]]
-                r.fail('explicit-data', '%s: auto (%s) vs format=%s (%s): '
-                       'variable data differ %r' % (key, a['cls'], e['fmt'],
-                                                    b['cls'], ks[:6]),
-                       klass=e['kind'])
+            judge_auto_vs_explicit(r, key, e, auto, expl)
             r.label('kind:' + e['kind'])
     finally:
         shutil.rmtree(cdir, ignore_errors=True)
